@@ -302,6 +302,25 @@ def check_wrappers(chk):
         for a in walk_no_nested(lf.func):
             if isinstance(a, ast.Assign) and len(a.targets) == 1 and isinstance(a.targets[0], ast.Name) and a.targets[0].id not in (lf.targets or []):
                 ldefs[a.targets[0].id] = None if a.targets[0].id in ldefs else a.value
+        # a local that is changed after its definition (del x[0], x.pop(), x += ...) is not the value it was defined with
+        mutated = set()
+        for a in walk_no_nested(lf.func):
+            if isinstance(a, ast.Delete):
+                mutated |= {t.value.id for t in a.targets if isinstance(t, ast.Subscript) and isinstance(t.value, ast.Name)}
+            elif isinstance(a, ast.AugAssign) and isinstance(a.target, ast.Name):
+                mutated.add(a.target.id)
+            elif isinstance(a, ast.Assign):
+                mutated |= {t.value.id for t in a.targets if isinstance(t, ast.Subscript) and isinstance(t.value, ast.Name)}
+            elif isinstance(a, ast.Call) and isinstance(a.func, ast.Attribute) and isinstance(a.func.value, ast.Name) and \
+                    a.func.attr in ('pop', 'append', 'extend', 'insert', 'remove', 'clear', 'sort', 'reverse', 'update', 'setdefault', 'popitem'):
+                mutated.add(a.func.value.id)
+        ret_names = {x.id for x in ast.walk(rets[0].value) if isinstance(x, ast.Name)}
+        hit = sorted(n for n in ret_names & mutated if n in ldefs and n not in (lf.targets or []))
+        if hit:
+            chk.bad('C15.H', lf.mod, lf.pyname, f'{name}: {hit[0]} is modified after {norm(ldefs[hit[0]])[:50] if ldefs[hit[0]] is not None else "its definition"}',
+                    f'{name} post-processes the result of the host operation ({hit[0]} = {norm(ldefs[hit[0]])[:60] if ldefs[hit[0]] is not None else "?"} is modified before it is returned): '
+                    f'it no longer returns what the reference list/dict/str model gives (e.g. empty parts or elements are dropped)', node=rets[0])
+            continue
         got = norm(inline(rets[0].value, {k: v for k, v in ldefs.items() if v is not None}))
         accepted = [f.format(*lf.targets) for f in forms]
         if name == 'regexEscape' and _hand_written_escape(chk, lf, rets[0]):
